@@ -4,6 +4,7 @@ import (
 	"fmt"
 	"sort"
 	"strings"
+	"sync"
 	"time"
 
 	"github.com/honeycombio/refinery/config"
@@ -68,9 +69,9 @@ type c38Set struct {
 }
 
 type c38Case struct {
-	Kind     string     `json:"kind"`   // config | rules
-	Format   string     `json:"format"` // toml | yaml | json
-	Settings []c38Set   `json:"settings,omitempty"`
+	Kind     string      `json:"kind"`   // config | rules
+	Format   string      `json:"format"` // toml | yaml | json
+	Settings []c38Set    `json:"settings,omitempty"`
 	Rules    *c38RuleDoc `json:"rules,omitempty"`
 }
 
@@ -85,7 +86,7 @@ var c38PeerURLs = []string{"http://127.0.0.1:8081", "http://10.1.2.3:8080", "htt
 var c38FieldNames = []string{"trace.span_id", "error", "http.status_code", "service name", "app.user_id", "exception.message", "duration_ms", "k8s.pod-name", "app/route", "request.method"}
 var c38FreeStrings = []string{"refinery-logs", "Refinery Logs", "my logs", "prod", "staging_2", "team:infra", "a#b", "it's", `say "hi"`, `dom\user`,
 	"12345", "007", "true", "null", "1e5", "0x1F", "- dash", "*star", "&anchor", "{brace}", "[b]", "key: value", "#1Pass!", "p@ss:w0rd", "s3cr3t",
-	"100%", "a,b", "!bang", "|pipe", ">gt", "eth0", "192.168.1.1", "refinery-0.refinery"}
+	"100%", "a,b", "!bang", "|pipe", ">gt", "eth0", "192.168.1.1", "refinery-0.refinery", "[secret]", "[", "`tick", "a_b^c", "{a: b}", "@home", "%temp%"}
 
 const c38Hex = "0123456789abcdef"
 const c38Alnum = "0123456789abcdefghijklmnopqrstuvwxyzABCDEFGHIJKLMNOPQRSTUVWXYZ"
@@ -99,6 +100,27 @@ var c38Special = map[string][]string{
 	"SampleCacheConfig.Type":                 {"legacy", "cuckoo"},
 }
 
+// c38Roll is an unbiased die 0..n-1 (rapid's own integer generators favour
+// small values, which would skew every weight below). Shrinks towards 0.
+func c38Roll(t *rapid.T, n int, label string) int {
+	if n <= 1 {
+		return 0
+	}
+	bits := 0
+	for 1<<bits < n {
+		bits++
+	}
+	bits += 3
+	v := 0
+	for i := 0; i < bits; i++ {
+		v <<= 1
+		if rapid.Bool().Draw(t, label) {
+			v |= 1
+		}
+	}
+	return v % n
+}
+
 func c38StrOf(t *rapid.T, alphabet string, min, max int, label string) string {
 	n := rapid.IntRange(min, max).Draw(t, label+"-len")
 	b := make([]byte, n)
@@ -109,7 +131,7 @@ func c38StrOf(t *rapid.T, alphabet string, min, max int, label string) string {
 }
 
 func c38GenAPIKey(t *rapid.T, label string) string {
-	switch rapid.IntRange(0, 9).Draw(t, label+"-keykind") {
+	switch c38Roll(t, 10, label+"-keykind") {
 	case 0, 1, 2, 3:
 		return c38StrOf(t, c38Hex, 32, 32, label)
 	case 4: // a classic key that happens to be all decimal digits
@@ -119,12 +141,36 @@ func c38GenAPIKey(t *rapid.T, label string) string {
 	}
 }
 
+var (
+	c38FreeOnce    sync.Once
+	c38FreeBuckets map[string][]string
+)
+
+// c38GenFree draws a free-form string (token, dataset name, user name): first the
+// class (what YAML makes of it as a plain scalar), then a member of the class.
 func c38GenFree(t *rapid.T, label string) string {
-	if rapid.IntRange(0, 3).Draw(t, label+"-free") > 0 {
-		return rapid.SampledFrom(c38FreeStrings).Draw(t, label+"-pick")
+	c38FreeOnce.Do(func() {
+		c38FreeBuckets = map[string][]string{}
+		for _, s := range c38FreeStrings {
+			c := c38StrClass(s)
+			if strings.HasPrefix(c, "needsquote") {
+				c = "needsquote"
+			}
+			c38FreeBuckets[c] = append(c38FreeBuckets[c], s)
+		}
+	})
+	switch k := c38Roll(t, 20, label+"-free"); {
+	case k < 7:
+		return rapid.SampledFrom(c38FreeBuckets["plain"]).Draw(t, label+"-pick")
+	case k < 11:
+		return rapid.SampledFrom(c38FreeBuckets["punct"]).Draw(t, label+"-pick")
+	case k < 14:
+		return rapid.SampledFrom(c38FreeBuckets["scalarlike"]).Draw(t, label+"-pick")
+	case k < 17:
+		return rapid.SampledFrom(c38FreeBuckets["needsquote"]).Draw(t, label+"-pick")
 	}
 	s := strings.TrimSpace(c38StrOf(t, c38FreeAlphabet, 1, 12, label))
-	if s == "" {
+	if s == "" || s == "*" {
 		s = "x"
 	}
 	return s
@@ -170,7 +216,7 @@ func c38IntArg(a any) (int64, bool) {
 // c38GenValue draws a value that is valid for the setting's v1 type and for
 // the v2 validations of its counterpart. nonDefault: avoid the v2 default.
 func c38GenValue(t *rapid.T, s *c38Setting, label string) c38Val {
-	wantDefault := rapid.IntRange(0, 11).Draw(t, label+"-eqdef") == 0
+	wantDefault := c38Roll(t, 12, label+"-eqdef") == 0
 	if sp, ok := c38Special[s.V1Path]; ok {
 		return c38Val{K: "str", S: c38PickStr(t, sp, s.Default, wantDefault, label)}
 	}
@@ -277,12 +323,16 @@ func c38GenValue(t *rapid.T, s *c38Setting, label string) c38Val {
 	case "stringarray":
 		et, _ := c38HasVal(s, "elementType")
 		n := rapid.IntRange(1, 4).Draw(t, label+"-n")
+		star := -1
+		if s.V1Path == "APIKeys" && c38Roll(t, 10, label+"-star") < 2 {
+			star = c38Roll(t, n, label+"-starpos")
+		}
 		var l []string
 		for i := 0; i < n; i++ {
 			el := fmt.Sprintf("%s-%d", label, i)
 			switch {
 			case s.V1Path == "APIKeys":
-				if rapid.IntRange(0, 9).Draw(t, el+"-star") < 2 {
+				if i == star {
 					l = append(l, "*")
 				} else {
 					l = append(l, c38GenAPIKey(t, el))
@@ -334,8 +384,8 @@ func genC38(t *rapid.T) c38Case {
 	if err != nil {
 		panic("C38: cannot build the domain table: " + err.Error())
 	}
-	c := c38Case{Format: rapid.SampledFrom([]string{"toml", "yaml", "json"}).Draw(t, "format")}
-	if rapid.IntRange(0, 9).Draw(t, "kind") < 3 {
+	c := c38Case{Format: []string{"toml", "yaml", "json"}[c38Roll(t, 3, "format")]}
+	if c38Roll(t, 20, "kind") < 7 {
 		c.Kind = "rules"
 		c.Rules = genC38Rules(t)
 		return c
@@ -343,10 +393,14 @@ func genC38(t *rapid.T) c38Case {
 	c.Kind = "config"
 	// removed settings make the current converter abandon the template, so they
 	// are present in a minority of cases only (the rest must stay observable)
-	withRemoved := rapid.IntRange(0, 9).Draw(t, "with-removed") < 3
+	withRemoved := c38Roll(t, 10, "with-removed") < 2
+	withMap := c38Roll(t, 10, "with-map") < 2
 	var pool []*c38Setting
 	for _, s := range tab.Settings {
 		if s.Removed && !withRemoved {
+			continue
+		}
+		if s.Type == "map" && !withMap {
 			continue
 		}
 		pool = append(pool, s)
@@ -355,9 +409,16 @@ func genC38(t *rapid.T) c38Case {
 	if max > 40 {
 		max = 40
 	}
-	idx := rapid.SliceOfNDistinct(rapid.IntRange(0, len(pool)-1), 1, max, func(i int) int { return i }).Draw(t, "settings")
+	// which settings: an unbiased shuffle of the pool, cut at an unbiased length
+	// (shrinks towards a short prefix of the table order)
+	all := make([]int, len(pool))
+	for i := range all {
+		all[i] = i
+	}
+	n := 1 + c38Roll(t, max, "nsettings")
+	idx := append([]int(nil), rapid.Permutation(all).Draw(t, "settings")[:n]...)
 	// aim: most cases carry one renamed and one unit/type-converted setting
-	if rapid.IntRange(0, 9).Draw(t, "aim") < 7 {
+	if c38Roll(t, 10, "aim") < 7 {
 		have := map[int]bool{}
 		for _, i := range idx {
 			have[i] = true
